@@ -2,6 +2,7 @@ SPECIFICATION TSpec
 CONSTANTS
   GuardTrain = TRUE
 INVARIANT GridOK
+INVARIANT FixedOK
 INVARIANT RunMinsOK
 INVARIANT RunOutcomeOK
 INVARIANT RunSplitsOK
